@@ -5,6 +5,7 @@ package weshnet
 import (
 	"context"
 	"fmt"
+	"github.com/libp2p/go-libp2p/core/event"
 	"strings"
 	"sync"
 	"testing"
@@ -485,6 +486,76 @@ func c13RPC(rep *vrep.Report, t *testing.T, n int) {
 		}
 		return out, err
 	})
+	// a write that lands while an until_now listing is still being streamed: the listing is the log as it was when
+	// the request was made, in order; the new event must not be mixed into it
+	waitBus := func(bus event.Bus, typ interface{}) func() {
+		sub, err := bus.Subscribe(typ)
+		vmust(err)
+		return func() {
+			defer sub.Close()
+			select {
+			case <-sub.Out():
+			case <-time.After(60 * time.Second):
+				panic("HARNESS: the event of a local write was not emitted within 60s")
+			}
+		}
+	}
+	for _, rev := range []bool{false, true} {
+		for _, store := range []string{"metadata", "message"} {
+			var got, want []string
+			var lerr error
+			if store == "metadata" {
+				for _, c := range logHashes(gc.MetadataStore()) {
+					want = append(want, c.String())
+				}
+				st := &recStream[protocoltypes.GroupMetadataEvent]{ctx: ctx}
+				st.onSend = func(n int) {
+					if n == 1 {
+						wait := waitBus(gc.MetadataStore().EventBus(), new(*protocoltypes.GroupMetadataEvent))
+						_, err := tp.Service.ContactRequestResetReference(ctx, &protocoltypes.ContactRequestResetReference_Request{})
+						vmust(err)
+						wait()
+					}
+				}
+				lerr = svc.GroupMetadataList(&protocoltypes.GroupMetadataList_Request{GroupPk: cfg.AccountGroupPk, UntilNow: true, ReverseOrder: rev}, st)
+				for _, m := range st.all() {
+					_, c, e := cid.CidFromBytes(m.EventContext.Id)
+					vmust(e)
+					got = append(got, c.String())
+				}
+			} else {
+				for _, c := range logHashes(gc.MessageStore()) {
+					want = append(want, c.String())
+				}
+				st := &recStream[protocoltypes.GroupMessageEvent]{ctx: ctx}
+				st.onSend = func(n int) {
+					if n == 1 {
+						wait := waitBus(gc.MessageStore().EventBus(), new(*protocoltypes.GroupMessageEvent))
+						_, err := tp.Service.AppMessageSend(ctx, &protocoltypes.AppMessageSend_Request{GroupPk: cfg.AccountGroupPk, Payload: []byte("late")})
+						vmust(err)
+						wait()
+					}
+				}
+				lerr = svc.GroupMessageList(&protocoltypes.GroupMessageList_Request{GroupPk: cfg.AccountGroupPk, UntilNow: true, ReverseOrder: rev}, st)
+				for _, m := range st.all() {
+					_, c, e := cid.CidFromBytes(m.EventContext.Id)
+					vmust(e)
+					got = append(got, c.String())
+				}
+			}
+			if rev {
+				for i, j := 0, len(want)-1; i < j; i, j = i+1, j-1 {
+					want[i], want[j] = want[j], want[i]
+				}
+			}
+			same := lerr == nil && strings.Join(got, ",") == strings.Join(want, ",")
+			rep.Eval(fmt.Sprintf("rpc/%s/until-now-with-write-during-listing/reverse=%v/snapshot=%v", store, rev, same))
+			rep.AddTransitions(1)
+			if !same {
+				rep.Violation("C13/rpc-listing-mixed-with-live-event", fmt.Sprintf("%s list RPC (until_now, reverse=%v) while an entry is written during the listing: err=%v, returned %d events, the log held %d when the request was made; returned order differs from the log order of that moment", store, rev, lerr, len(got), len(want)), c13Case{Store: store + "-rpc-live", N: len(want), Arrival: "service", Since: -1, Until: -1, Reverse: rev})
+			}
+		}
+	}
 	rep.AddStates(1)
 	rep.Sample(map[string]interface{}{"part": "list RPCs", "metadata_entries": len(metaOrder), "message_entries": len(msgOrder)})
 }
